@@ -67,6 +67,9 @@ func exprString(v ssa.Value, names map[ssa.Value]string, depth int) string {
 			}
 		}
 	case *ssa.Call:
+		if r := pureGetterResult(x); r != nil {
+			return exprString(r, names, depth+1)
+		}
 		if callee := x.Call.StaticCallee(); callee != nil {
 			return callee.Name() + "()"
 		}
@@ -328,6 +331,11 @@ func signedLeaves(v ssa.Value) string {
 	var rec func(v ssa.Value, sign int, d int)
 	rec = func(v ssa.Value, sign int, d int) {
 		v = stripConv(v)
+		if call, ok := v.(*ssa.Call); ok {
+			if r := pureGetterResult(call); r != nil {
+				v = stripConv(r)
+			}
+		}
 		if bo, ok := v.(*ssa.BinOp); ok && d < 10 {
 			switch bo.Op {
 			case token.ADD:
@@ -367,4 +375,40 @@ func cmpString(op token.Token, a, b string) string {
 		}
 	}
 	return "(" + a + op.String() + b + ")"
+}
+
+// pureGetterResult: the call is to an unexported method that takes only its receiver (the caller's own receiver) and
+// consists of field loads and arithmetic: its result expression stands for the call in the canonical forms (a
+// sub-expression that a refactoring named). Exported accessors (Size, Committed, Wrapped) keep their names in the tables.
+func pureGetterResult(call *ssa.Call) ssa.Value {
+	callee := call.Call.StaticCallee()
+	if callee == nil || callee.Blocks == nil || callee.Object() == nil || callee.Object().Exported() || callee.Signature.Recv() == nil {
+		return nil
+	}
+	if len(callee.Params) != 1 || len(callee.Blocks) != 1 || len(call.Call.Args) != 1 {
+		return nil
+	}
+	switch stripConv(call.Call.Args[0]).(type) {
+	case *ssa.Parameter, *ssa.FreeVar:
+	default:
+		return nil
+	}
+	var res ssa.Value
+	for _, in := range callee.Blocks[0].Instrs {
+		switch x := in.(type) {
+		case *ssa.FieldAddr, *ssa.BinOp, *ssa.Convert, *ssa.ChangeType, *ssa.DebugRef:
+		case *ssa.UnOp:
+			if x.Op != token.MUL && x.Op != token.SUB {
+				return nil
+			}
+		case *ssa.Return:
+			if len(x.Results) != 1 {
+				return nil
+			}
+			res = x.Results[0]
+		default:
+			return nil
+		}
+	}
+	return res
 }
